@@ -50,40 +50,67 @@ def rots_of_record(rec):
     return [r]
 
 
-def builder_check(ctx, impl, rots, stats=None, cases=None, extra=None):
-    """One real connection: rot_<axis>(n=, d=, angle=) calls on one qubit, the committed bytes decoded
-    again.  Per call:  angle given (with or without n, d)  -> the emitted (n, d) list must be what
-    get_angle_spec_from_float(angle) returns AND realise the ANGLE (oracle);  angle not given -> exactly
-    one instruction carrying (n, d).  Returns the number of rotation calls checked."""
+GENERIC = ("generic", False)
+
+
+def steps_of_call(impl, r, tol):
+    """the steps one call must produce: get_angle_spec_from_float(angle) or [(n, d)]; None if the toolbox raised"""
+    if r.get("angle") is not None:
+        w, _ = impl.spec(r["angle"], tol)
+        return w
+    return [[r.get("n", 0), r.get("d", 0)]]
+
+
+def builder_check(ctx, impl, rots, stats=None, cases=None, extra=None, cfg=GENERIC):
+    """rot_<axis>(n=, d=, angle=) calls on one qubit of a real connection built under configuration cfg
+    (see Impl.emit), the committed bytes decoded again, one segment per call.  Per call:  angle given (with or
+    without n, d)  -> the emitted (n, d) list must be what get_angle_spec_from_float(angle) returns AND realise
+    the ANGLE (oracle);  angle not given -> exactly one instruction carrying (n, d).  Under
+    compiler=NVSubroutineTranspiler with is_using_hardware the unchanged tree rescales steps with d <= 4 to
+    (n*2^(4-d), 4) and refuses (ValueError) steps with d > 4 (ac.hw_expected): a refusal is accepted there,
+    and the rotation commands pending BEFORE the transpiler must be the plain steps in every case.
+    Returns the number of rotation calls checked."""
     tol = impl.default_tol
     rj = [ac.rot_json(r) for r in rots]
     ex = dict(extra or {})
+    ex.update(config=cfg[0], is_using_hardware=cfg[1])
 
     def rec(i, got, why, **kw):
         r = rots[i]
-        a = r.get("angle")
         d = dict(via="builder", rots=rj, index=i, axis=r["axis"], n=r.get("n"), d=r.get("d"),
                  angle=rj[i].get("angle"), angle_repr=rj[i].get("angle_repr"), tol=float(tol).hex(), got=got, why=why)
         d.update(ex)
         d.update(kw)
         return d
 
-    refusal_ok = any(r.get("angle") is None and not (0 <= r.get("n", 0) <= 255 and 0 <= r.get("d", 0) <= 255) for r in rots)
-    segs = impl.emit(rots)
+    steps = [steps_of_call(impl, r, tol) for r in rots]
+    exp = [ac.hw_expected(cfg, st) if st is not None else ("same", None) for st in steps]
+    refusal_ok = any(r.get("angle") is None and not (0 <= r.get("n", 0) <= 255 and 0 <= r.get("d", 0) <= 255) for r in rots) \
+        or any(m == "refuse" for m, _ in exp)
+    segs = impl.emit(rots, cfg=cfg)
+    if cfg[0] == "nvcompiler" and all(st is not None for st in steps) and impl.last_pending is not None:
+        pre = [[n, d] for (_, n, d) in impl.last_pending]
+        flat = [list(x) for st in steps for x in st]
+        # one connection per call: after a refusal the remaining calls are not made, so only a prefix is there
+        if (pre != flat) if segs is not None else (pre != flat[:len(pre)]):
+            ctx.violation("rotation commands pending before the NV transpiler differ from the steps of the calls",
+                          rec(0, pre, "builder (before the transpiler) emits other steps", want=flat))
     if segs is None:
         if not refusal_ok:
-            ctx.violation("rot_X/Y/Z(...) raised", rec(0, None, "builder raised"))
+            ctx.violation("rot_X/Y/Z(...) raised", rec(0, None, "builder raised", pending_before_flush=str(impl.last_pending)))
             if cases is not None:
                 for r in rots:
                     if r.get("angle") is not None:
                         cases.append((float(r["angle"]), tol, None))
+        elif stats is not None:
+            stats["refused"] = stats.get("refused", 0) + 1
         return len(rots)
     for i, (r, seg) in enumerate(zip(rots, segs)):
         got = [[n, d] for (_, n, d) in seg]
         mn_ok = all(m == "rot_" + r["axis"].lower() for (m, _, _) in seg)
+        want = exp[i][1] if exp[i][0] == "same" else steps[i]
         if r.get("angle") is not None:
             a = float(r["angle"])
-            want, _ = impl.spec(r["angle"], tol)
             if want is None or got != want or not mn_ok:
                 ctx.violation("emitted rotation instructions differ from get_angle_spec_from_float(angle)",
                               rec(i, got, "builder emits other steps than the toolbox returns for the angle", want=want,
@@ -93,43 +120,58 @@ def builder_check(ctx, impl, rots, stats=None, cases=None, extra=None):
                       extra=dict(rots=rj, index=i, axis=r["axis"], n=r.get("n"), d=r.get("d"), **ex), stats=stats)
             if cases is not None:
                 cases.append((a, tol, got))
-            ctx.note_case((json.dumps(rj[i], sort_keys=True), "builder"), nontrivial=bool(got))
+            ctx.note_case((json.dumps(rj[i], sort_keys=True), "builder", cfg), nontrivial=bool(got))
         else:
-            n, d = r.get("n", 0), r.get("d", 0)
-            if got != [[n, d]] or not mn_ok:
+            if got != want or not mn_ok:
                 ctx.violation("rot_<axis>(n, d) without angle did not emit exactly one instruction carrying (n, d)",
-                              rec(i, got, "n/d route altered", emitted=[list(x) for x in seg]))
-            ctx.note_case((json.dumps(rj[i], sort_keys=True), "builder-nd"), nontrivial=True)
+                              rec(i, got, "n/d route altered", want=want, emitted=[list(x) for x in seg]))
+            ctx.note_case((json.dumps(rj[i], sort_keys=True), "builder-nd", cfg), nontrivial=True)
     return len(rots)
 
 
-def run_check(ctx, impl, rots, extra=None):
-    """2..4 consecutive rotation calls on one qubit WITHOUT separator: oracle on the whole emitted run
-    (flush succeeds, every instruction encodable, per maximal same-axis group the steps add up to the
-    sum of the requested angles); tie: the run is the concatenation of one instruction per step.
-    Returns True if the run is exactly that concatenation."""
+def run_check(ctx, impl, rots, extra=None, cfg=GENERIC, stats=None):
+    """2..4 consecutive rotation calls on one qubit WITHOUT separator, under configuration cfg: oracle on the
+    whole emitted run (flush succeeds, every instruction encodable, per maximal same-axis group the steps add
+    up to the sum of the requested angles); tie: the run is the concatenation of one instruction per step.
+    Returns True if the run is exactly that concatenation (or was refused where the tree defines a refusal)."""
     tol = impl.default_tol
     rj = [ac.rot_json(r) for r in rots]
-    impl.last_pending = None
-    run = impl.emit(rots, separate=False)
+    steps = [steps_of_call(impl, r, tol) for r in rots]
+    if any(st is None for st in steps):
+        return False
+    exp = [ac.hw_expected(cfg, st) for st in steps]
+    refuse = any(m == "refuse" for m, _ in exp)
+    run = impl.emit(rots, separate=False, cfg=cfg)
+    ex = dict(extra or {})
+    ex.update(config=cfg[0], is_using_hardware=cfg[1])
+    if cfg[0] == "nvcompiler" and impl.last_pending is not None:
+        pre = [[m, n, d] for (m, n, d) in impl.last_pending]
+        flat = [["rot_" + r["axis"].lower(), n, d] for r, st in zip(rots, steps) for n, d in st]
+        if pre != flat:
+            d = dict(via="builder-run", rots=rj, tol=float(tol).hex(), got=pre, want=flat,
+                     why="rotation commands pending before the NV transpiler differ from the steps of the calls")
+            d.update(ex)
+            ctx.violation("consecutive rotations: commands before the NV transpiler differ from the steps", d)
+    ctx.note_case((json.dumps(rj, sort_keys=True), "builder-run", cfg), nontrivial=True)
+    if run is None and refuse:
+        if stats is not None:
+            stats["refused"] = stats.get("refused", 0) + 1
+        return True
     o = ac.run_oracle(rots, run, tol)
     got = None if run is None else [list(x) for x in run]
     if not o["ok"]:
         d = dict(via="builder-run", rots=rj, tol=float(tol).hex(), got=got, why=o["why"],
                  pending_before_flush=str(impl.last_pending) if run is None else None)
-        d.update(extra or {})
+        d.update(ex)
         ctx.violation("consecutive rotations: " + o["why"][:200], d)
-    ctx.note_case((json.dumps(rj, sort_keys=True), "builder-run"), nontrivial=True)
     want = []
-    for r in rots:
-        if r.get("angle") is not None:
-            w, _ = impl.spec(r["angle"], tol)
-            if w is None:
-                return False
-            want += [["rot_" + r["axis"].lower(), n, d] for n, d in w]
-        else:
-            want.append(["rot_" + r["axis"].lower(), r.get("n", 0), r.get("d", 0)])
+    for r, st, (m, e) in zip(rots, steps, exp):
+        want += [["rot_" + r["axis"].lower(), n, d] for n, d in (e if m == "same" else st)]
     return got == want
+
+
+def cfg_of_record(rec):
+    return (rec.get("config", "generic"), bool(rec.get("is_using_hardware", False)))
 
 
 def run_corpus(ctx, impl):
@@ -139,9 +181,9 @@ def run_corpus(ctx, impl):
         for rec in json.load(open(p))["cases"]:
             n += 1
             if rec.get("via") == "builder-run":
-                run_check(ctx, impl, rots_of_record(rec), extra=dict(corpus=os.path.basename(p)))
+                run_check(ctx, impl, rots_of_record(rec), extra=dict(corpus=os.path.basename(p)), cfg=cfg_of_record(rec))
             elif rec.get("via") == "builder":
-                builder_check(ctx, impl, rots_of_record(rec), extra=dict(corpus=os.path.basename(p)))
+                builder_check(ctx, impl, rots_of_record(rec), extra=dict(corpus=os.path.basename(p)), cfg=cfg_of_record(rec))
             else:
                 check_one(ctx, impl, float.fromhex(rec["angle"]), float.fromhex(rec["tol"]), extra=dict(corpus=os.path.basename(p)))
     return n
@@ -153,7 +195,7 @@ def run(ctx):
                 "m*pi/2^k and +-1..3 ulp; rest next to 255/2^k, 127/2^k, 128/2^k (d-window edges); within tol of 0 and of 2pi "
                 "in radians and in half turns, both signs) + random (uniform [0,2pi), [-2pi,0), 2pi<|a|<100, 1e-12<|a|<1, "
                 "1e2<|a|<1e6, 1e6<|a|<1e18), tol in {1e-1..1e-9} or log-uniform; plus rot_X/Y/Z(angle=) on a real connection "
-                "(default tol; three routes: angle only, angle together with non-default n and d - which the documentation says are ignored -, n and d only - emitted verbatim; a Hadamard separates the calls) and as runs of 2..4 consecutive calls without separator (whole-run oracle per maximal same-axis group). Every case: implementation vs Coq model as exact (n,d) lists, and the oracle "
+                "(default tol; three routes: angle only, angle together with non-default n and d - which the documentation says are ignored -, n and d only - emitted verbatim; a Hadamard separates the calls) and as runs of 2..4 consecutive calls without separator (whole-run oracle per maximal same-axis group); every builder program under six configurations: default / hardware_config=NVHardwareConfig / compiler=NVSubroutineTranspiler, each with set_is_using_hardware False and True. Every case: implementation vs Coq model as exact (n,d) lists, and the oracle "
                 "(1<=n<=255, 0<=d<=255, circle distance |sum n*pi/2^d - angle| <= tol + 2^-49 in 80-digit rationals). "
                 "non-trivial = at least one rotation step emitted; distinct = distinct (angle bits, tol bits, route)")
     impl = ac.Impl(ctx.repo)
@@ -181,11 +223,11 @@ def run(ctx):
     n_corpus = run_corpus(ctx, impl)
 
     # ---- generated stream: implementation + oracle
-    n_rand = 9000 if quick else 400000
+    n_rand = 6000 if quick else 400000
     gen = ac.gen_cases(ctx.rng, n_rand)
     cases, cls_count, len_count, tol_count, maxd = [], {}, {}, {}, 0
     fcases, unobserved = [], 0
-    n_front = 10 ** 9 if quick else 40000     # calls whose front-end values are observed and compared
+    n_front = 8000 if quick else 40000     # calls whose front-end values are observed and compared
     fe_max, fe_arg, fe_by_decade = 0.0, None, {}
     excess_max, excess_arg = -1.0, None
     for angle, tol, cls in gen:
@@ -229,23 +271,42 @@ def run(ctx):
     thr_rel = max((float(F(t / np.pi) * ac.PI / F(t) - 1) for t in {c[1] for c in gen}), default=0.0)
 
     # ---- builder route: rot_X/Y/Z(angle=...) -> bytes -> decoded instructions
-    bcases = [] if stats.get("timeouts", 0) >= 3 else ac.gen_builder_cases(ctx.rng, 300 if quick else 6000)
+    bcases = [] if stats.get("timeouts", 0) >= 3 else ac.gen_builder_cases(ctx.rng, 300 if quick else 3000)
     b_rot = 0
     b_kinds = dict(angle_only=0, angle_with_n_d=0, n_d_only=0)
-    for rots in bcases:
-        b_rot += builder_check(ctx, impl, rots, stats=stats, cases=cases)
+    b_cfg = {}
+    for k, rots in enumerate(bcases):
+        for cfg in ac.CONFIGS:
+            # generic/simulation: every program (and the Coq correspondence); the other five
+            # configurations: every program in quick, every fourth in thorough
+            if cfg != GENERIC and not quick and k % 4 != ac.CONFIGS.index(cfg) % 4:
+                continue
+            nr = builder_check(ctx, impl, rots, stats=stats, cases=cases if cfg == GENERIC else None, cfg=cfg)
+            b_cfg["%s/hw=%s" % cfg] = b_cfg.get("%s/hw=%s" % cfg, 0) + nr
+            if cfg == GENERIC:
+                b_rot += nr
         for r in rots:
             b_kinds["n_d_only" if r.get("angle") is None else "angle_with_n_d" if ("n" in r or "d" in r) else "angle_only"] += 1
 
     # ---- consecutive rotation calls without separator (whole-run oracle)
-    runs = [] if stats.get("timeouts", 0) >= 3 else ac.gen_builder_runs(ctx.rng, 400 if quick else 8000, impl.default_tol)
+    runs = [] if stats.get("timeouts", 0) >= 3 else ac.gen_builder_runs(ctx.rng, 400 if quick else 4000, impl.default_tol)
     run_diff = []
-    for rots in runs:
-        if not run_check(ctx, impl, rots):
-            run_diff.append(rots)
+    r_cfg = {}
+    for k, rots in enumerate(runs):
+        for cfg in ac.CONFIGS:
+            if cfg != GENERIC and not quick and k % 4 != ac.CONFIGS.index(cfg) % 4:
+                continue
+            r_cfg["%s/hw=%s" % cfg] = r_cfg.get("%s/hw=%s" % cfg, 0) + 1
+            if not run_check(ctx, impl, rots, cfg=cfg, stats=stats):
+                run_diff.append(rots)
     ctx.coverage["builder_runs"] = dict(runs=len(runs), calls=sum(len(r) for r in runs),
                                         same_axis_pairs=sum(1 for r in runs for x, y in zip(r, r[1:]) if x["axis"] == y["axis"]),
-                                        not_one_instruction_per_step=len(run_diff))
+                                        not_one_instruction_per_step=len(run_diff), runs_per_configuration=r_cfg)
+    ctx.coverage["builder_configurations"] = dict(
+        calls_per_configuration=b_cfg, refused_by_nv_transpiler_on_hardware=stats.get("refused", 0),
+        what="generic = default DebugConnection; nvhw = hardware_config=NVHardwareConfig(5); nvcompiler = "
+             "compiler=NVSubroutineTranspiler (stream read before the transpiler from the builder's pending commands and "
+             "after it from the committed bytes, NV flavour); hw = set_is_using_hardware(value) during the program")
     if run_diff and not [v for v in ctx.violations if v["key"] is None]:
         ctx.broken.append(f"builder run is not the concatenation of one instruction per step: {len(run_diff)} runs, first: "
                           f"{json.dumps([ac.rot_json(r) for r in run_diff[0]])[:400]}")
@@ -367,7 +428,8 @@ def search(ctx, impl, mism, cases):
         if not o["ok"] and o["key"] is None:
             return
     for rots in ac.gen_builder_cases(rng, 500):
-        builder_check(ctx, impl, rots)
+        for cfg in ac.CONFIGS:
+            builder_check(ctx, impl, rots, cfg=cfg)
         if [v for v in ctx.violations if v["key"] is None]:
             return
     for rots in ac.gen_builder_runs(rng, 6000, impl.default_tol):
@@ -381,12 +443,14 @@ def replay(ctx, path):
     impl = ac.Impl(ctx.repo)
     if rec.get("via") == "builder-run":
         rots = rots_of_record(rec)
-        print("replay (builder-run):", rots, "->", impl.emit(rots, separate=False))
-        run_check(ctx, impl, rots)
+        cfg = cfg_of_record(rec)
+        print("replay (builder-run):", cfg, rots, "->", impl.emit(rots, separate=False, cfg=cfg))
+        run_check(ctx, impl, rots, cfg=cfg)
     elif rec.get("via") == "builder":
         rots = rots_of_record(rec)
-        print("replay (builder):", rots, "->", impl.emit(rots))
-        builder_check(ctx, impl, rots)
+        cfg = cfg_of_record(rec)
+        print("replay (builder):", cfg, rots, "->", impl.emit(rots, cfg=cfg))
+        builder_check(ctx, impl, rots, cfg=cfg)
     else:
         angle, tol = float.fromhex(rec["angle"]), float.fromhex(rec["tol"])
         got, o = check_one(ctx, impl, angle, tol)
